@@ -2,13 +2,13 @@ SPECIFICATION Spec
 CONSTANTS
   NF = 1
   MaxLen = 10
-  Kinds = {"sublog", "subshort", "mod", "modeonly"}
+  Kinds = {"sublog", "subshort", "mod", "modeonly", "subdel", "subadd"}
   MaxHunks = 1
   MaxBody = 2
   Preamble = TRUE
   MaxConf = 1
   Buf = 1
-  Fixes = {"D1", "D14", "D2", "D18", "D19", "D20", "D21", "D23", "D24"}
+  Fixes = {"D1", "D14", "D2", "D18", "D19", "D20", "D21", "D23", "D24", "D25"}
   ColorOnly = FALSE
   Modes = {}
   ReplayLen = 0
